@@ -46,3 +46,97 @@ Theorem C16_bucket_burst : forall w cs ch,
   (length (cs ++ [(0%Z, ch)]) <= 8)%nat.
 Proof. exact bucket_burst. Qed.
 Print Assumptions C16_bucket_burst.
+
+(* ---- one sender, each event stamped by sendLoop before the next Send ---------------- *)
+(* (gap, chars, slack) per event: all non-negative.  After any number of events the cost
+   written fits in 8 s plus the real time elapsed: at most 8 + t/1s lines by time t. *)
+Theorem C16_wallclock : forall steps s,
+  0 <= wd s <= threshold -> Forall step_ok steps ->
+  let t := last (fst (run_sync s steps)) - last s in
+  wd s + sum_cost3 steps <= threshold + t /\
+  Z.of_nat (length steps) * second <= threshold + t.
+Proof. exact wallclock_sync. Qed.
+Print Assumptions C16_wallclock.
+
+Theorem C16_wallclock_prefix : forall a b s,
+  0 <= wd s <= threshold -> Forall step_ok (a ++ b) ->
+  snd (run_sync s a) = firstn (length a) (snd (run_sync s (a ++ b))) /\
+  Z.of_nat (length a) * second <= threshold + (last (fst (run_sync s a)) - last s).
+Proof. exact wallclock_sync_prefix. Qed.
+Print Assumptions C16_wallclock_prefix.
+
+(* The hold clause of the statement ("once the client has used its initial burst allowance
+   every further event passed to Send is held for at least its cost"), full strength:
+   `hold_clause` in Proofs/RateProofs.v — for EVERY schedule of rate calls, enqueues and
+   sendLoop deliveries, a rate call made when the cost charged so far exceeds 8 s plus all
+   the real time elapsed since the last write returns the event's cost.
+   Proved: the clause for one sender whose events are each stamped by sendLoop before the
+   next Send (C16_hold_partial).  Missing: senders that reach the next rate call before
+   sendLoop has stamped the previous event — and there the clause is FALSE of the code as it
+   is (C16_hold_refuted, C16_stale_burst_unheld; replayed on the Go code by suite rate.wire,
+   oracle class tight-burst-unthrottled; notes/proposed-fixes/rate-credits-elapsed-time-once.diff). *)
+Theorem C16_hold_partial : forall a s gap chars slack,
+  0 <= wd s -> Forall step_ok (a ++ [(gap, chars, slack)]) ->
+  let s1 := fst (run_sync s a) in
+  let now := last s1 + gap in
+  threshold + (now - last s) < wd s + sum_cost3 (a ++ [(gap, chars, slack)]) ->
+  snd (run_sync s (a ++ [(gap, chars, slack)])) =
+  snd (run_sync s a) ++ [(now, cost chars, now + cost chars + slack)].
+Proof. exact hold_sync. Qed.
+Print Assumptions C16_hold_partial.
+
+Theorem C16_hold_refuted : ~ hold_clause.
+Proof. exact hold_clause_refuted. Qed.
+Print Assumptions C16_hold_refuted.
+
+(* after an idle period of one event's cost, ANY number of such events sent back to back
+   before sendLoop runs are all returned delay 0 and queued at that one instant *)
+Theorem C16_stale_burst_unheld : forall idle len ids s,
+  cost len <= idle -> rs s = mkR 0 0 ->
+  snd (exec s (stale_burst idle len ids)) = repeat 0 (length ids) /\
+  rs (fst (exec s (stale_burst idle len ids))) = mkR 0 0 /\
+  tx (fst (exec s (stale_burst idle len ids))) = tx s ++ map (fun i => mkE 0 i len) ids /\
+  wire (fst (exec s (stale_burst idle len ids))) = wire s.
+Proof. exact stale_burst_unheld. Qed.
+Print Assumptions C16_stale_burst_unheld.
+
+(* ---- bypass ------------------------------------------------------------------------- *)
+(* a schedule fragment without a rate call returns no delay and leaves writeDelay alone;
+   Send with AllowFlood, Cmd.Ping and Cmd.Pong contribute exactly one enqueue and no rate
+   call (Send with flood protection on does contribute one) *)
+Theorem C16_bypass : forall acts s,
+  forallb (fun a => negb (is_rate a)) acts = true ->
+  snd (exec s acts) = [] /\ wd (rs (fst (exec s acts))) = wd (rs s).
+Proof. exact no_rate_no_delay. Qed.
+Print Assumptions C16_bypass.
+
+Theorem C16_bypass_entry_points : forall now e,
+  forallb (fun a => negb (is_rate a)) (send_piece true now e) = true /\
+  forallb (fun a => negb (is_rate a)) (ping_actions e) = true /\
+  forallb (fun a => negb (is_rate a)) (pong_actions e) = true /\
+  send_piece true now e = [AEnq e] /\ ping_actions e = [AEnq e] /\ pong_actions e = [AEnq e] /\
+  existsb is_rate (send_piece false now e) = true.
+Proof. exact bypass_entry_points. Qed.
+Print Assumptions C16_bypass_entry_points.
+
+Theorem C16_allow_flood : forall pieces s t g id,
+  tx s = [] ->
+  snd (send_flood true s t g id pieces) = t /\
+  wd (rs (fst (send_flood true s t g id pieces))) = wd (rs s) /\
+  tx (fst (send_flood true s t g id pieces)) = [] /\
+  wire_events (fst (send_flood true s t g id pieces)) = wire_events s ++ pieces_events g id pieces.
+Proof. exact send_flood_allow. Qed.
+Print Assumptions C16_allow_flood.
+
+(* ---- order -------------------------------------------------------------------------- *)
+Theorem C16_order : forall g acts s,
+  events_of g (wire_events (fst (exec s acts))) ++ events_of g (tx (fst (exec s acts))) =
+  events_of g (wire_events s) ++ events_of g (tx s) ++ events_of g (enq_of acts).
+Proof. exact order_per_sender. Qed.
+Print Assumptions C16_order.
+
+Theorem C16_order_drained : forall g acts r,
+  tx (fst (exec (sys0 r) acts)) = [] ->
+  events_of g (wire_events (fst (exec (sys0 r) acts))) = events_of g (enq_of acts).
+Proof. exact order_drained. Qed.
+Print Assumptions C16_order_drained.
